@@ -130,7 +130,7 @@ func genConfig(tape *simrt.Tape, focus string) *atkConfig {
 		c.MaxSteps = 400 + tape.Choose(1600)
 	}
 	c.MaxBody = []int64{-1, 0, 1, 5, 100}[tape.Biased(5, 2, 3)]
-	c.Mediate = !tape.Prob(1, 10)
+	c.Mediate = true // an unmediated select with two ready clauses is decided by the Go runtime: not replayable
 	c.Plans = []respPlan{{Status: 200, Body: 2, ErrAt: -1}}
 	np := tape.Choose(5)
 	for i := 0; i < np; i++ {
@@ -329,8 +329,8 @@ type resultSnap struct {
 	EndOK             bool
 }
 
-func consumer(results <-chan *vegeta.Result) {
-	v, _ := simrt.Park(kConsIdle, 0, 0, 0, 0, nil)
+func consumer(results <-chan *vegeta.Result, idx int) {
+	v, _ := simrt.Park(kConsIdle, 0, 0, int64(idx), 0, nil)
 	for v != relQuit {
 		r, ok := <-results
 		var blob []byte
@@ -346,8 +346,8 @@ func consumer(results <-chan *vegeta.Result) {
 	}
 }
 
-func stopper(atk *vegeta.Attacker) {
-	v, _ := simrt.Park(kStopIdle, 0, 0, 0, 0, nil)
+func stopper(atk *vegeta.Attacker, idx int) {
+	v, _ := simrt.Park(kStopIdle, 0, 0, int64(idx), 0, nil)
 	for v != relQuit {
 		r := int64(0)
 		if atk.Stop() {
